@@ -1,5 +1,7 @@
 package fasthttp
 
+import "net"
+
 // C11 — no request observes state left over from an earlier request.
 //
 // Non-interference: request 2 is served (a) after an arbitrary request 1 and a
@@ -71,6 +73,7 @@ func c11Dirty(ctx *RequestCtx, xs string) {
 	ctx.SetStatusCode(500)
 	ctx.SetContentType("x/" + xs)
 	ctx.SetBodyString("leak" + xs)
+	ctx.HijackSetNoResponse(true) // without Hijack: must not outlive this request
 }
 
 // request 1: anything that fills or disturbs per-connection / pooled state.
@@ -109,11 +112,13 @@ func c11Second(kind int, ys string) string {
 		return "POST /two HTTP/1.1\r\nHost: b\r\nTransfer-Encoding: chunked\r\nConnection: close\r\n\r\n3\r\n" + ys + "!\r\n0\r\n\r\n"
 	case 3:
 		return "POST /two HTTP/1.1\r\nHost: b\r\nContent-Type: application/x-www-form-urlencoded\r\nContent-Length: 4\r\nConnection: close\r\n\r\nf=" + ys
+	case 4: // value-less arguments, in the query and in the form body
+		return "POST /two?" + ys + " HTTP/1.1\r\nHost: b\r\nContent-Type: application/x-www-form-urlencoded\r\nContent-Length: 2\r\nConnection: close\r\n\r\n" + ys
 	}
 	return ""
 }
 
-const c11NumSecond = 4
+const c11NumSecond = 5
 
 func vhC11Differential() {
 	x := vBytes("x", 2)
@@ -144,10 +149,14 @@ func vhC11Differential() {
 	var snapB string
 	callsB := 0
 	sb := mk()
+	hijack2 := vBool("secondHandlerHijacks")
 	sb.Handler = func(ctx *RequestCtx) {
 		callsB++
 		snapB = c11Snapshot(ctx, readCookies)
 		ctx.SetBodyString("ok")
+		if hijack2 {
+			ctx.Hijack(func(net.Conn) {})
+		}
 	}
 	cb := &vsSegConn{segs: [][]byte{[]byte(r2)}}
 	sb.ServeConn(cb)
@@ -164,6 +173,9 @@ func vhC11Differential() {
 		calls2++
 		snapA = c11Snapshot(ctx, readCookies)
 		ctx.SetBodyString("ok")
+		if hijack2 {
+			ctx.Hijack(func(net.Conn) {})
+		}
 	}
 	sameConn := !endsConn && vBool("sameConnection")
 	var ca *vsSegConn
